@@ -9,6 +9,7 @@ from .. import refmodel as R
 from .. import shapes as S
 
 PROPERTY = "C20"
+VIA_HISTORY_EVERY = 5      # every k-th shape case is also run on an object that reached its definition through edits
 EXPLORERS = ['E1']
 RULE = ("E1: ray.intersect on every ordered pair of lines through two distinct points of {0,1,2}^2 and of {0,1}^3 (thorough "
         "{0,1,2}^3), integer and one dyadic affine image; wn_poly on every simple polygon with <=5 (6) vertices of the 3x3 "
@@ -150,6 +151,11 @@ def gen_cases(tier, seed):
                 if flat and cubes and g not in FLAT_CUBE_GRIDS[:3 if q else None]:
                     continue
                 cases.append(dict(kind='vox', shape=sh, grid=list(g), cubes=cubes))
+    # the same query on objects that reached their definition through edits after their views had been read
+    for sh in (0, 1, 2, 4):
+        for g in ((2, 3, 4), (3, 3, 3)):
+            for via in ('history', 'history2'):
+                cases.append(dict(kind='vox', shape=sh, grid=list(g), cubes=False, via=via))
     return cases
 
 
